@@ -112,3 +112,55 @@ contract(CAP + ".annotate_triple", params={"a_triple": Triple},
 contract(CAP + "._check_class_counts@canary", params={"a_triple": Triple}, returns=Bool,
     requires=[IS_PROP, PI_PROP, "implies(%s, %s)" % (IS_PI, OBJ_NODE)],
     ensures=["result == (not (%s and %s in %s and %s[%s] > self._instance_limit))" % (IS_PI, OKEY, CNT, CNT, OKEY)], props=["C16"], canary=True)
+
+# ---- shape-map targets (C10, C01): a node is an instance of a label at most once, whatever the selector returns ---------------------
+SMT = "shexer.core.instances.mappings.shape_map_instance_tracker:ShapeMapInstanceTracker"
+Selector = schema("NodeSelector", ["ext:NodeSelector"], {})
+Item = schema("ShapeMapItem", ["shexer.model.shape_map:ShapeMapItem"], {"_node_selector": Selector, "_shape_label": Name})
+SMTracker = schema("SMTracker", [SMT], {"_instances_dict": Dict(Name, List(Name))})
+contract("ext:NodeSelector.get_target_nodes", params={}, returns=List(Name), self_type=Selector, modifies=[], raises=[], assume_only=True, verify=False,
+    note="ASSUMED: the selector returns a list of node identifiers (possibly with repetitions: one row per SPARQL solution)")
+SD = "self._instances_dict"
+NODUP = "forall(Name, lambda x: implies(x in %s, forall(Int, Int, lambda i, j: implies(0 <= i and i < j and j < len(%s[x]), %s[x][i] != %s[x][j]))))" % (SD, SD, SD, SD)
+HASLABEL = "exists(Int, lambda q: 0 <= q and q < len(%s[{0}]) and %s[{0}][q] == an_item._shape_label)" % (SD, SD)
+contract(SMT + "._solve_targets_of_an_item", params={"an_item": Item}, requires=[NODUP],
+    ensures=[NODUP,                                                                       # no label twice for one node => it counts once
+             "forall(Name, lambda x: implies(old(x in %s), x in %s))" % (SD, SD)],
+    raises=[], modifies=["SMTracker._instances_dict[self]"],
+    loops={0: {"invariant": [NODUP, "forall(Name, lambda x: implies(old(x in %s), x in %s))" % (SD, SD),
+                             "forall(Int, lambda t: implies(0 <= t and t < _i0, _seq0[t] in %s and %s))" % (SD, HASLABEL.format("_seq0[t]"))]}},
+    props=["C10", "C01"],
+    note="the label lists stay duplicate-free: a node delivered several times by a selector (or by two items with one label) is ONE instance of the shape")
+
+# ---- all_classes_mode combined with a shape map (C10 "both together"): union of the two node->labels dictionaries ----------------------
+MIT = "shexer.core.instances.mix.mixed_instance_tracker:MixedInstanceTracker"
+AnyTracker = schema("AnyTracker", ["ext:AnyInstanceTracker"], {})
+MixT = schema("MixTracker", [MIT], {})
+IDICT = Dict(Name, List(Name))
+specfun("ambiguous_label", [AnyTracker, Name], Name)
+contract(MIT + "._find_all_classes_in_dict", params={"instances_dict": IDICT}, returns=Set(Name), self_type=MixT,
+    ensures=["forall(Name, lambda c: (c in result) == exists(Name, lambda x: x in instances_dict and exists(Int, lambda q: 0 <= q and q < len(instances_dict[x]) and instances_dict[x][q] == c)))"],
+    raises=[], assume_only=True, verify=False, note="the set of labels used in the dictionary (membership-only set; two nested loops with an existential witness: assumed here)")
+contract(MIT + "._get_label_for_ambiguous_class", params={"a_class": Name, "tracker": AnyTracker}, returns=Name, self_type=MixT,
+    ensures=["result == ambiguous_label(tracker, a_class)"], raises=[], assume_only=True, verify=False,
+    note="ASSUMED: disambiguated label (string concatenation with a global counter)")
+RD, ND = "reference_dict", "new_dict"
+contract(MIT + "._integrate_dicts", params={RD: IDICT, ND: IDICT, "new_tracker": AnyTracker}, mutates=[RD], self_type=MixT,
+    ensures=[   # whole view: every node of either dictionary is there; labels of the first tracker are KEPT (prefix), those of the second appended
+        "forall(Name, lambda x: (x in %s) == (old(x in %s) or x in %s))" % (RD, RD, ND),
+        "forall(Name, lambda x: implies(old(x in %s), len(%s[x]) == len(old(%s)[x]) + ite(x in %s, len(%s[x]), 0) and "
+        "forall(Int, lambda q: implies(0 <= q and q < len(old(%s)[x]), %s[x][q] == old(%s)[x][q]))))" % (RD, RD, RD, ND, ND, RD, RD, RD),
+        "forall(Name, lambda x: implies(x in %s and not old(x in %s), len(%s[x]) == len(%s[x])))" % (ND, RD, RD, ND)],
+    raises=[],
+    loops={0: {"invariant": [
+        "forall(Name, lambda x: (x in %s) == (old(x in %s) or exists(Int, lambda t: 0 <= t and t < _i0 and _keys0[t] == x)))" % (RD, RD),
+        "forall(Name, lambda x: implies(old(x in %s), len(%s[x]) == len(old(%s)[x]) + ite(exists(Int, lambda t: 0 <= t and t < _i0 and _keys0[t] == x), len(%s[x]), 0) and "
+        "forall(Int, lambda q: implies(0 <= q and q < len(old(%s)[x]), %s[x][q] == old(%s)[x][q]))))" % (RD, RD, RD, ND, RD, RD, RD),
+        "forall(Name, lambda x: implies(not old(x in %s) and exists(Int, lambda t: 0 <= t and t < _i0 and _keys0[t] == x), len(%s[x]) == len(%s[x])))" % (RD, RD, ND)]},
+           1: {"invariant": [
+        "an_instance in %s" % RD, "an_instance == _keys0[_i0]", "list_eq(classes, %s[an_instance])" % ND,
+        "forall(Name, lambda x: implies(x != an_instance, select_eq(%s, at_loop(1, %s), x)))" % (RD, RD),
+        "len(%s[an_instance]) == at_loop(1, len(%s[an_instance])) + _i1" % (RD, RD),
+        "forall(Int, lambda q: implies(0 <= q and q < at_loop(1, len(%s[an_instance])), %s[an_instance][q] == at_loop(1, %s[an_instance])[q]))" % (RD, RD, RD)]}},
+    props=["C10", "C01"],
+    note="integration of the class tracker into the shape-map tracker: nothing the shape map selected is lost or overwritten; every class label is added")
